@@ -82,6 +82,25 @@ func docBody(v string) []byte {
 
 func docVal(v string) string { return "B:" + hex.EncodeToString(docBody(v)) }
 
+const (
+	pastBase   = int64(473385600e9)  // 1985-01-01
+	futureBase = int64(3786912000e9) // 2090-01-01
+)
+
+// clientTime turns a metadata choice of the generator into the timestamp sent with the request
+// and the instant it means (0 = the field stays as it is: not sent, or the zero timestamp).
+func clientTime(kind, id int64) (int64, *timestamppb.Timestamp) {
+	switch kind {
+	case 1:
+		return 0, &timestamppb.Timestamp{}
+	case 2:
+		return pastBase + id, ts(pastBase + id)
+	case 3:
+		return futureBase + id, ts(futureBase + id)
+	}
+	return 0, nil
+}
+
 func ts(ns int64) *timestamppb.Timestamp { return timestamppb.New(time.Unix(0, ns).UTC()) }
 
 func (x *runner) setReq(key string, kvp *hydrapb.KeyValuePair, create, overwrite bool) (string, error) {
@@ -196,6 +215,19 @@ func (x *runner) do(ri, li, oi int, o op, v *laneView) *exec {
 			e.Exp = e.T0 + o.Exp
 			kvp.ExpiredAt = ts(e.Exp)
 		}
+		uat, uts := clientTime(o.UAt, id)
+		cat, cts := clientTime(o.CAt, id)
+		kvp.UpdatedAt, kvp.CreatedAt = uts, cts
+		if uat != 0 {
+			e.ChkUAt, e.WantUAt = true, uat
+		} else if known {
+			e.ChkUAt, e.WantUAt = true, cur.UAt
+		}
+		if cat != 0 {
+			e.ChkCAt, e.WantCAt = true, cat
+		} else if known {
+			e.ChkCAt, e.WantCAt = true, cur.CAt
+		}
 		create, over := true, true
 		if kind == "setNoOver" {
 			over = false
@@ -227,12 +259,16 @@ func (x *runner) do(ri, li, oi int, o op, v *laneView) *exec {
 			if want == "NOTHING_CHANGED" || want == "NOT_FOUND" {
 				e.Silent = true
 			} else {
-				nv := mval{Val: repr, Exp: cur.Exp}
-				if !present {
-					nv.Exp = 0
-				}
+				nv := cur // (the zero value when the key is missing)
+				nv.Val = repr
 				if e.Exp != 0 {
 					nv.Exp = e.Exp
+				}
+				if uat != 0 {
+					nv.UAt = uat
+				}
+				if cat != 0 {
+					nv.CAt = cat
 				}
 				v.m[o.Key] = nv
 			}
@@ -251,6 +287,21 @@ func (x *runner) do(ri, li, oi int, o op, v *laneView) *exec {
 			req.Condition = &hydrapb.IncrementInt64Condition{RelationalOperator: hydrapb.Relational_EQUAL, Value: -987654321}
 			e.Silent = true
 			e.Val = cur.Val
+		}
+		if kind == "inc" && (o.MU || o.MC || o.Exp != 0) {
+			yes := true
+			ne, ex := &hydrapb.IncrementRequestMetadata{}, &hydrapb.IncrementRequestMetadata{}
+			if o.MU {
+				ne.UpdatedAt, ex.UpdatedAt = &yes, &yes
+			}
+			if o.MC {
+				ne.CreatedAt = &yes
+			}
+			if o.Exp != 0 {
+				e.Exp = e.T0 + o.Exp
+				ne.ExpiredAt, ex.ExpiredAt = ts(e.Exp), ts(e.Exp)
+			}
+			req.SetIfNotExist, req.SetIfExist = ne, ex
 		}
 		resp, err := x.r.GW.IncrementInt64(ctx, req)
 		e.T1 = x.now()
@@ -271,11 +322,9 @@ func (x *runner) do(ri, li, oi int, o op, v *laneView) *exec {
 					if resp.GetValue() != base+o.D {
 						dev("Increment answered %d, the key-value model says %d", resp.GetValue(), base+o.D)
 					}
-					nv := mval{Val: e.Val, Exp: cur.Exp}
-					if !present {
-						nv.Exp = 0
-					}
-					v.m[o.Key] = nv
+					v.m[o.Key] = x.stamped(e, o, cur, present)
+				} else if o.MU && e.T0 == e.T1 {
+					e.ChkUAt, e.WantUAt = true, e.T0
 				}
 			} else if resp.GetIsIncremented() {
 				dev("Increment with a false condition answered IsIncremented=true")
@@ -290,6 +339,13 @@ func (x *runner) do(ri, li, oi int, o op, v *laneView) *exec {
 			req.CreateIfNotExist = true
 			p.Ops = []*hydrapb.PatchOp{{Op: hydrapb.PatchOp_SET, Path: "v", Value: mpStr(sval)}}
 			e.Val = docVal(sval)
+			if o.MU || o.MC || o.Exp != 0 {
+				req.Meta = &hydrapb.PatchMeta{SetUpdatedAt: o.MU, SetCreatedAt: o.MC}
+				if o.Exp != 0 {
+					e.Exp = e.T0 + o.Exp
+					req.Meta.SetExpiredAt = ts(e.Exp)
+				}
+			}
 		case "patchNoop":
 			e.Silent = true
 			e.Val = cur.Val
@@ -336,11 +392,9 @@ func (x *runner) do(ri, li, oi int, o op, v *laneView) *exec {
 					if e.Status != w {
 						dev("PatchTreasures answered %s, the key-value model says %s", e.Status, w)
 					}
-					nv := mval{Val: e.Val, Exp: cur.Exp}
-					if !present {
-						nv.Exp = 0
-					}
-					v.m[o.Key] = nv
+					v.m[o.Key] = x.stamped(e, o, cur, present)
+				} else if o.MU && e.T0 == e.T1 {
+					e.ChkUAt, e.WantUAt = true, e.T0
 				}
 			} else if e.Status != want {
 				dev("PatchTreasures answered %s, expected %s", e.Status, want)
@@ -438,6 +492,28 @@ func (x *runner) do(ri, li, oi int, o op, v *laneView) *exec {
 	return e
 }
 
+// stamped is the record an Increment / PatchTreasures leaves behind on a key only this writer
+// touches: new value, requested ExpiredAt, and UpdatedAt / CreatedAt stamped by the server at the
+// time of the call when the request metadata asks for it (CreatedAt only on creation); everything
+// else stays. It also tells the oracle what the event's treasure must carry.
+func (x *runner) stamped(e *exec, o op, cur mval, present bool) mval {
+	nv := cur
+	nv.Val = e.Val
+	if e.Exp != 0 {
+		nv.Exp = e.Exp
+	}
+	exact := e.T0 == e.T1
+	if o.MU {
+		nv.UAt = e.T0
+	}
+	if o.MC && !present {
+		nv.CAt = e.T0
+	}
+	e.ChkUAt, e.WantUAt = exact || !o.MU, nv.UAt
+	e.ChkCAt, e.WantCAt = exact || !(o.MC && !present), nv.CAt
+	return nv
+}
+
 func (x *runner) readState() map[string]mval {
 	out := map[string]mval{}
 	resp, err := x.r.GW.Get(context.Background(), &hydrapb.GetRequest{Swamps: []*hydrapb.GetSwamp{{IslandID: x.island, SwampName: x.swamp, Keys: allKeys()}}})
@@ -447,7 +523,7 @@ func (x *runner) readState() map[string]mval {
 	for _, s := range resp.GetSwamps() {
 		for _, t := range s.GetTreasures() {
 			if t.GetIsExist() {
-				out[t.GetKey()] = mval{Val: valOf(t), Exp: tsNanos(t.GetExpiredAt())}
+				out[t.GetKey()] = mval{Val: valOf(t), Exp: tsNanos(t.GetExpiredAt()), UAt: tsNanos(t.GetUpdatedAt()), CAt: tsNanos(t.GetCreatedAt())}
 			}
 		}
 	}
@@ -771,7 +847,7 @@ func (x *runner) run() {
 				}
 				mv, p := lv.m[k]
 				ov, op := observed[k]
-				if p != op || (p && (mv.Val != ov.Val || mv.Exp != ov.Exp)) {
+				if p != op || (p && mv != ov) {
 					x.inconclusive(fmt.Sprintf("state after round %d deviates from the key-value model (other properties decide that): key %s lane %d model=%v/%v read=%v/%v", ri, k, li, p, mv, op, ov))
 				}
 			}
